@@ -167,10 +167,9 @@ def coq_make(targets, timeout=1500):
     """Full .vo build of the given targets (and what they depend on) under the lock."""
     lock = coq_lock()
     try:
-        if not os.path.exists(os.path.join(COQ, 'Makefile')):
-            r = sh(['coq_makefile', '-f', '_CoqProject', '-o', 'Makefile'], cwd=COQ)
-            if r.returncode != 0:
-                return False, r.stdout
+        r = sh([os.path.join(VERIF, 'tools', 'mkcoqproject.sh')])
+        if r.returncode != 0:
+            return False, 'mkcoqproject failed: ' + r.stdout
         try:
             r = sh(['make', '-k', '-j16'] + list(targets), cwd=COQ, timeout=timeout)
         except subprocess.TimeoutExpired as e:
@@ -261,26 +260,34 @@ def print_assumptions(pid):
 
 def ensure_model(group):
     """Extraction happens when Extract_<group>.v is compiled (it writes <group>_model.ml into
-    coq/); the OCaml driver is rebuilt when the extracted code is newer than the executable."""
+    coq/); the OCaml driver (ocaml/conv.ml.in + ocaml/drv_<group>.ml behind `open <Group>_model`)
+    is rebuilt when the extracted code or the driver is newer than the executable."""
     ok, log = coq_make(['Extract_%s.vo' % group])
     if not ok:
         return None, log
     ml = os.path.join(COQ, '%s_model.ml' % group)
     exe = os.path.join(BUILD, 'model_' + group)
     drv = os.path.join(VERIF, 'ocaml', 'drv_%s.ml' % group)
-    newest = max(os.path.getmtime(ml), os.path.getmtime(drv))
+    conv = os.path.join(VERIF, 'ocaml', 'conv.ml.in')
+    newest = max(os.path.getmtime(ml), os.path.getmtime(drv), os.path.getmtime(conv))
     if not os.path.exists(exe) or os.path.getmtime(exe) < newest:
         lock = coq_lock()
         try:
             bd = os.path.join(BUILD, 'ml_' + group)
             shutil.rmtree(bd, ignore_errors=True)
             os.makedirs(bd)
-            for f in (ml, ml + 'i', drv):
+            for f in (ml, ml + 'i'):
                 shutil.copy(f, bd)
-            r = sh(['ocamlfind', 'ocamlopt', '-O3', '-unboxed-types'][:2] + ['-w', '-a', '-o', exe,
-                    '%s_model.mli' % group, '%s_model.ml' % group, 'drv_%s.ml' % group], cwd=bd)
+            with open(os.path.join(bd, 'main.ml'), 'w') as f:
+                f.write('open %s_model\n' % group.capitalize())
+                f.write(open(conv).read())
+                f.write('\n# 1 "drv_%s.ml"\n' % group)
+                f.write(open(drv).read())
+            r = sh(['ocamlfind', 'ocamlopt', '-O3', '-w', '-a', '-o', exe + '.tmp',
+                    '%s_model.mli' % group, '%s_model.ml' % group, 'main.ml'], cwd=bd)
             if r.returncode != 0:
                 return None, r.stdout
+            os.replace(exe + '.tmp', exe)
         finally:
             lock.close()
     return exe, log
